@@ -854,15 +854,29 @@ def concrete_instances(seed: int, names: List[str], per_name: int = 3):
     return out
 
 
-def pair_cases(seed: int, specs_list: List[Dict[str, Any]], names: List[str], in_block: bool, per_name: int = 3, prefix=()):
-    """All ordered pairs (a, b) of concrete op instances, on every given model spec; inside one block (C03) or as a plain
-    history (C01). `prefix` ops run first (e.g. an add_cons so that user constraints exist)."""
+def pair_cases(seed: int, specs_list: List[Dict[str, Any]], names: List[str], in_block: bool, per_name: int = 3, prefix=(),
+               prefixes=None, length: int = 2):
+    """All ordered tuples (pairs by default) of concrete op instances, on every given model spec and after every given
+    prefix; inside one block (C03) or as a plain history (C01). A prefix is a list of ops that run first (e.g. an add_cons
+    so that user constraints exist, or removals so that there are detached reaction objects to add again)."""
+    import itertools
+
     inst = concrete_instances(seed, names, per_name)
     flat = [op for n in names for op in inst[n]]
     for spec in specs_list:
-        for a in flat:
-            for b in flat:
+        for pre in (prefixes if prefixes is not None else [list(prefix)]):
+            for combo in itertools.product(flat, repeat=length):
                 if in_block:
-                    yield {"spec": spec, "path": "bulk", "ops": [*prefix, {"op": "block", "ops": [a, b], "fault": None, "propagate": False}]}
+                    yield {"spec": spec, "path": "bulk", "ops": [*pre, {"op": "block", "ops": list(combo), "fault": None, "propagate": False}]}
                 else:
-                    yield {"spec": spec, "path": "bulk", "ops": [*prefix, a, b]}
+                    yield {"spec": spec, "path": "bulk", "ops": [*pre, *combo]}
+
+
+# prefixes for the enumerations: user rows/columns exist; detached reaction objects exist (one with a rule whose gene stays
+# in the model, one removed together with its orphaned gene)
+ENUM_PREFIXES = [
+    [{"op": "add_cons", "name": 0, "rxns": [1], "coefs": [1, 1], "b": (None, 5)}, {"op": "add_var", "name": 0, "b": (0, 10), "kind": "continuous"}],
+    [{"op": "remove_reactions", "by": "obj", "orphans": False, "sels": [1], "single": False, "via": "model"},
+     {"op": "remove_reactions", "by": "obj", "orphans": True, "sels": [2], "single": False, "via": "model"},
+     {"op": "add_var", "name": 0, "b": (0, 10), "kind": "continuous"}],
+]
